@@ -166,7 +166,8 @@ def transforms2(tier):
            Tr(C_GROW, [1.0, 1.0]), Rot(TR, math.pi / 2), Tr(SQ_MOVE, [0, aff(0, t=1)]),
            Rot(U(SQ, G_C), 0.5), Rot(C2, aff(0.3, t=1.2), around=[1, 0]),
            # parameter-dependent rigid motions as OPERANDS (the enclosing box must cover every parameter row)
-           U(Tr(SQ, [aff(0, t=3), 0]), G_C), N(Rot(SLP, aff(0, t=1), around=[0.5, 0.5]), C1)]
+           U(Tr(SQ, [aff(0, t=3), 0]), G_C), N(Rot(SLP, aff(0, t=1), around=[0.5, 0.5]), C1),
+           Rot(SQ_GROW, aff(0, t=1.3)), Tr(SQ_GROW, [aff(0, t=1), 0.25])]        # inner domain AND motion depend on the parameter
     if tier == "thorough":
         for ang in ANGLES:
             out += [Rot(SQ, ang), Rot(TSL, ang, around=[0.3, 0.1]), Rot(LSH, ang)]
